@@ -37,6 +37,7 @@ type FrozenGate struct {
 	FailWhen bool     `json:"fail_when"`
 	MustPass bool     `json:"must_pass"`
 	Deps     []string `json:"deps,omitempty"`
+	Once     bool     `json:"once,omitempty"`
 	Why      string   `json:"why,omitempty"`
 }
 
@@ -49,6 +50,7 @@ type FuncTable struct {
 	Accepts int          `json:"accept_sites"`
 	Gates   []FrozenGate `json:"gates"`
 	Bounds  []string     `json:"bounds,omitempty"`
+	Loops   []string     `json:"full_loops,omitempty"`
 	// Required lists gates that the property demands but that are not (yet)
 	// present in the tree; they are checked exactly like frozen gates and are
 	// how a missing check is reported.
@@ -204,11 +206,12 @@ func GenGates(c *Ctx, prop string, specs []GateSpec) error {
 		}
 		ft := FuncTable{Func: s.Func, Sink: s.Sink, NoRet: s.NoRet, Cfg: s.Cfg, Block: s.Block, Accepts: nacc}
 		for _, g := range gates {
-			ft.Gates = append(ft.Gates, FrozenGate{Cond: g.Cond, FailWhen: g.FailWhen, MustPass: g.MustPass, Deps: g.Deps,
+			ft.Gates = append(ft.Gates, FrozenGate{Cond: g.Cond, FailWhen: g.FailWhen, MustPass: g.MustPass, Deps: g.Deps, Once: g.Once,
 				Why: why[s.Func+"|"+s.Sink+"|"+g.Cond]})
 		}
 		if s.Sink == "" && s.Block == "" {
 			ft.Bounds = an.Bounds()
+			ft.Loops = an.FullLoops()
 		}
 		out = append(out, ft)
 	}
@@ -272,6 +275,32 @@ func CheckGates(c *Ctx, prop string, specs []GateSpec) {
 				}
 			}
 		}
+		if len(ft.Loops) > 0 {
+			curL := a.FullLoops()
+			split := func(s string) (string, int) {
+				if i := strings.LastIndex(s, " ~exits="); i > 0 {
+					n := 0
+					fmt.Sscanf(s[i+8:], "%d", &n)
+					return s[:i], n
+				}
+				return s, 0
+			}
+			for _, l := range ft.Loops {
+				ok := false
+				lc, ln := split(l)
+				for _, cl := range curL {
+					cc, cn := split(cl)
+					if (cc == lc || wildMatch(lc, cc)) && cn <= ln {
+						ok = true // same loop, no more early exits than before
+					}
+				}
+				if ok {
+					c.R.Ok("APO-LOOP", s.Func, l, pos, "loop examines every element (no early exit but return/panic)", true)
+				} else {
+					c.R.Bad("APO-LOOP", s.Func, l, pos, "this loop can now be left early (break) with elements unexamined, or no longer exists in this form")
+				}
+			}
+		}
 		cur := map[string]apo.Gate{}
 		for _, g := range gates {
 			cur[fmt.Sprintf("%s|%v", g.Cond, g.FailWhen)] = g
@@ -300,6 +329,10 @@ func CheckGates(c *Ctx, prop string, specs []GateSpec) {
 					detail += " [" + fg.Why + "]"
 				}
 				c.R.Bad("APO-GATE", s.Func, gsite, pos, detail)
+				continue
+			}
+			if fg.Once && !g.Once {
+				c.R.Bad("APO-GATE", s.Func, gsite, p.Pos(g.Pos), "a single failure of this check is no longer fatal: a failing evaluation can be overwritten by a later passing one (e.g. only the last loop iteration counts)")
 				continue
 			}
 			if fg.MustPass && !g.MustPass {
